@@ -132,6 +132,10 @@ def execute(case):
                     if ov[1] is not None:
                         gt = float(ov[1])
                 died_at = p.died_at
+                # dead (unnoticed) before the termination began?  Judged by
+                # kernel-call order: virtual timestamps may coincide
+                dead_before = (p.died_ncall is not None and
+                               p.died_ncall < first["ncall"])
                 beh = p.beh
                 delay = beh.get("delay", 0.0)
                 interesting = (beh.get("react") == 'ignore' or
@@ -166,6 +170,7 @@ def execute(case):
                     # began - unnoticed so far - did not "exit in time": the
                     # signals go to a zombie and reach nobody)
                     if not e["delivered"] and died_at is not None and \
+                            not dead_before and \
                             t0 - EPS <= died_at <= t0 + gt + EPS:
                         dead_for = e["t"] - died_at
                         if dead_for > STEP + EPS:
@@ -200,6 +205,10 @@ def execute(case):
                                  for e in kills])))
                 # (e) children
                 kids = [c for c in k.procs.values() if c.creator == pid]
+                if dead_before:
+                    # its children were orphaned when it died by itself:
+                    # they are no longer this worker's to signal
+                    kids = []
                 if kids:
                     classes.add('episode-with-children')
                     for c in kids:
